@@ -169,6 +169,9 @@ func genRawValid(g *rand.Rand, tier string) any {
 			if k*nb > 8 && g.IntN(2) == 0 {
 				nb = 1
 			}
+			if c.Kind == KCStream && nb > 1 {
+				nb = 1 // a valid conversation: a client-streaming RPC has a single reply
+			}
 			for j := 0; j < nb; j++ {
 				sc = append(sc, RBody)
 			}
